@@ -12,151 +12,42 @@
     both sides), the unlinking of a node with at most one child [unlink_spec], and the theorem. *)
 From Coq Require Import List NArith ZArith Bool Lia Permutation Setoid Morphisms.
 Import ListNotations.
-Require Import ITree.Model.Common ITree.Model.RBTree ITree.Model.MapModel ITree.Model.ArenaModel ITree.Model.ArenaDelete.
-Require Import ITree.Model.Pool ITree.Proofs.RBElems ITree.Proofs.RBInv ITree.Proofs.Subtree ITree.Proofs.TreeLookup ITree.Proofs.PoolProofs ITree.Proofs.MapProofs ITree.Proofs.ArenaProofs.
+Require Import ITree.Model.Common ITree.Model.RBTree ITree.Model.ArenaModel ITree.Model.ArenaDelete.
+Require Import ITree.Proofs.RBElems ITree.Proofs.RBInv ITree.Proofs.Subtree ITree.Proofs.TreeLookup ITree.Proofs.ArenaProofs.
 Local Open Scope N_scope.
 
-Notation del := (del ment).
-Notation del_min := (del_min ment).
-Notation fixL := (fixL ment).
-Notation fixR := (fixR ment).
-Notation fixL36 := (fixL36 ment).
-Notation fixR36 := (fixR36 ment).
-Notation is_black := (is_black ment).
+(** Generic in the entity type [ent] (implicit argument of everything once the section is closed).
+    The validation of the transcription by evaluation, and the map / set corollaries, are in
+    Proofs/ArenaMap.v. *)
+Section ArenaDeleteProofs.
+Context {ent : Type}.
 
-(** ** validation of the transcription by evaluation (before any proof): arenas built by
-    [arena_insert], slots deleted by [arena_delete], the result read back by [read_tree] and compared
-    with the tree-level model [del] (tree and freed slot) *)
-Definition check_delete (s: astate) (t: mtree) (x: N) : Prop :=
-  match del t x, arena_delete 64 s x with
-  | Done t' _ f, Ret (s', f') => read_tree 64 s' EMPTY (aroot s') = Some t' /\ f' = f
-  | _, _ => False
-  end.
+Notation anode := (anode ent).
+Notation astate := (astate ent).
+Notation mtree := (tree ent).
+Notation mslots := (slots ent).
+Notation frame := (@frame ent).
+Notation ctx := (@ctx ent).
+Notation height := (height ent).
+Notation paint := (paint ent).
+Implicit Types s : astate.
+Implicit Types k : ctx.
+Implicit Types t : mtree.
 
-Fixpoint check_each (s: astate) (t: mtree) (xs: list N) : Prop :=
-  match xs with [] => True | x :: xs' => check_delete s t x /\ check_each s t xs' end.
+Notation del := (del ent).
+Notation del_min := (del_min ent).
+Notation fixL := (fixL ent).
+Notation fixR := (fixR ent).
+Notation fixL36 := (fixL36 ent).
+Notation fixR36 := (fixR36 ent).
+Notation is_black := (is_black ent).
 
-(* successive deletions, each checked; the slot to delete is picked among those present in the current
-   tree (a removal with two children frees the successor's slot, not the one asked for) *)
-Definition pick (t: mtree) (sel: nat) : N := nth (sel mod length (slots ment t)) (slots ment t) 0.
-
-Fixpoint check_seq (s: astate) (t: mtree) (sels: list nat) : Prop :=
-  match sels with
-  | [] => t = E
-  | sel :: sels' =>
-    match del t (pick t sel), arena_delete 64 s (pick t sel) with
-    | Done t' _ f, Ret (s', f') => read_tree 64 s' EMPTY (aroot s') = Some t' /\ f' = f /\ check_seq s' t' sels'
-    | _, _ => False
-    end
-  end.
-
-Definition built (ks: list Z) (P: astate -> mtree -> Prop) : Prop :=
-  match arena_inserts empty_arena 1 ks with
-  | Ret s => read_tree 64 s EMPTY (aroot s) = Some (tree_inserts E 1 ks) /\ P s (tree_inserts E 1 ks)
-  | Err _ => False
-  end.
-
-Definition nseq (a n: nat) : list N := map N.of_nat (seq a n).
-Definition zperm (mul md n: nat) : list Z := map (fun i => Z.of_nat ((i * mul) mod md)) (seq 1 n).
-Definition sels (mul n: nat) : list nat := map (fun i => (i * mul)%nat) (seq 1 n).
-
-Definition ks_a : list Z := [50; 20; 70; 10; 30; 25; 27; 26; 60; 65; 5; 1; 80; 90; 85]%Z.
-Definition ks_b : list Z := map Z.of_nat (seq 1 31).            (* ascending: a right-leaning tree *)
-Definition ks_c : list Z := zperm 17 41 40.                      (* a permutation of 1..40 *)
-Definition ks_d : list Z := map (fun i => Z.of_nat (30 - i)) (seq 1 25).   (* descending *)
-Definition ks_e : list Z := zperm 5 23 22.
-
-(* which repair cases the tree-level model goes through (left side 2..6, right side 12..16) *)
-Definition tagL36 (c: color) (r: mtree) : list nat :=
-  match r with
-  | E => []
-  | T _ sl _ _ sr =>
-    if is_black sl && is_black sr then [if color_eqb c Black then 4 else 3]%nat
-    else if is_black sr then [5]%nat else [6]%nat
-  end.
-Definition tagL (c: color) (r: mtree) : list nat :=
-  match r with T Red sl _ _ _ => 2%nat :: tagL36 Red sl | _ => tagL36 c r end.
-Definition tagR36 (c: color) (l: mtree) : list nat :=
-  match l with
-  | E => []
-  | T _ sl _ _ sr =>
-    if is_black sl && is_black sr then [if color_eqb c Black then 14 else 13]%nat
-    else if is_black sl then [15]%nat else [16]%nat
-  end.
-Definition tagR (c: color) (l: mtree) : list nat :=
-  match l with T Red _ _ _ sr => 12%nat :: tagR36 Red sr | _ => tagR36 c l end.
-
-Fixpoint del_min_tags (t: mtree) : list nat :=
-  match t with
-  | E => []
-  | T c E s e r => []
-  | T c l s e r =>
-    match del_min l with
-    | Some (_, true, _, _) => del_min_tags l ++ tagL c r
-    | _ => del_min_tags l
-    end
-  end.
-
-Fixpoint del_tags (t: mtree) (x: N) : list nat :=
-  match t with
-  | E => []
-  | T c l s e r =>
-    if N.eqb s x then
-      match l, r with
-      | T _ _ _ _ _, T _ _ _ _ _ =>
-        match del_min r with
-        | Some (_, true, _, _) => (20%nat :: del_min_tags r) ++ tagR c l
-        | _ => 20%nat :: del_min_tags r
-        end
-      | E, E => [match c with Red => 21 | Black => 22 end]%nat
-      | _, E => [23]%nat
-      | E, _ => [24]%nat
-      end
-    else
-      match del l x with
-      | Done _ true _ => del_tags l x ++ tagL c r
-      | Done _ false _ => del_tags l x
-      | Stuck => []
-      | NotFound =>
-        match del r x with
-        | Done _ true _ => del_tags r x ++ tagR c l
-        | Done _ false _ => del_tags r x
-        | _ => []
-        end
-      end
-  end.
-
-Definition tags_each (t: mtree) (xs: list N) : list nat := flat_map (del_tags t) xs.
-Fixpoint tags_seq (t: mtree) (sels: list nat) : list nat :=
-  match sels with
-  | [] => []
-  | sel :: sels' => del_tags t (pick t sel) ++ match del t (pick t sel) with Done t' _ _ => tags_seq t' sels' | _ => [] end
-  end.
-
-(* 15 + 31 single deletions (every slot of two trees), then 40 + 25 + 22 successive deletions that
-   empty three more trees: 133 deletions, trees of 1 to 40 nodes *)
-Example arena_delete_agrees :
-  built ks_a (fun s t => check_each s t (nseq 1 15)) /\
-  built ks_b (fun s t => check_each s t (nseq 1 31)) /\
-  built ks_c (fun s t => check_seq s t (sels 7 40)) /\
-  built ks_d (fun s t => check_seq s t (sels 11 25)) /\
-  built ks_e (fun s t => check_seq s t (sels 3 22)).
-Proof. vm_compute. repeat split; reflexivity. Qed.
-
-(* the deletions above exercise: root / red leaf / black leaf / one child / two children (20..24) and
-   every repair case on both sides *)
-Example arena_delete_coverage :
-  let tags := tags_each (tree_inserts E 1 ks_a) (nseq 1 15) ++ tags_each (tree_inserts E 1 ks_b) (nseq 1 31) ++
-              tags_seq (tree_inserts E 1 ks_c) (sels 7 40) ++ tags_seq (tree_inserts E 1 ks_d) (sels 11 25) ++
-              tags_seq (tree_inserts E 1 ks_e) (sels 3 22) in
-  forallb (fun tag => existsb (Nat.eqb tag) tags) [2; 3; 4; 5; 6; 12; 13; 14; 15; 16; 20; 21; 22; 23; 24]%nat = true.
-Proof. vm_compute. reflexivity. Qed.
 
 (** ** the tree-level removal seen through a context *)
 
 (* what one repair step does to the context of the deficient subtree: the frame (c, i, e, sibling) is
    replaced by the frames [kf]; the deficient subtree itself is never inspected *)
-Definition fixL36_ctx (c: color) (s: N) (e: ment) (r: mtree) : option (ctx * bool) :=
+Definition fixL36_ctx (c: color) (s: N) (e: ent) (r: mtree) : option (ctx * bool) :=
   match r with
   | E => None
   | T sc sl ss se sr =>
@@ -170,7 +61,7 @@ Definition fixL36_ctx (c: color) (s: N) (e: ment) (r: mtree) : option (ctx * boo
     else Some ([FL Black s e sl; FL c ss se (paint Black sr)], false)
   end.
 
-Definition fixL_ctx (c: color) (s: N) (e: ment) (r: mtree) : option (ctx * bool) :=
+Definition fixL_ctx (c: color) (s: N) (e: ent) (r: mtree) : option (ctx * bool) :=
   match r with
   | E => None
   | T Red sl ss se sr =>
@@ -181,7 +72,7 @@ Definition fixL_ctx (c: color) (s: N) (e: ment) (r: mtree) : option (ctx * bool)
   | T Black _ _ _ _ => fixL36_ctx c s e r
   end.
 
-Definition fixR36_ctx (c: color) (l: mtree) (s: N) (e: ment) : option (ctx * bool) :=
+Definition fixR36_ctx (c: color) (l: mtree) (s: N) (e: ent) : option (ctx * bool) :=
   match l with
   | E => None
   | T sc sl ss se sr =>
@@ -195,7 +86,7 @@ Definition fixR36_ctx (c: color) (l: mtree) (s: N) (e: ment) : option (ctx * boo
     else Some ([FR Black sr s e; FR c (paint Black sl) ss se], false)
   end.
 
-Definition fixR_ctx (c: color) (l: mtree) (s: N) (e: ment) : option (ctx * bool) :=
+Definition fixR_ctx (c: color) (l: mtree) (s: N) (e: ent) : option (ctx * bool) :=
   match l with
   | E => None
   | T Red sl ss se sr =>
@@ -218,14 +109,14 @@ Definition lift_ctx (o: option (ctx * bool)) (t: mtree) : option (mtree * bool) 
 Lemma plug_app k1 : forall k2 t, plug (k1 ++ k2) t = plug k2 (plug k1 t).
 Proof. induction k1 as [|f k1 IH]; intros k2 t; simpl; [reflexivity|]. apply IH. Qed.
 
-Lemma fixL36_ctx_spec c t s e r : fixL36 c t s e r = lift_ctx (fixL36_ctx c s e r) t.
+Lemma fixL36_ctx_spec c t (s: N) e r : fixL36 c t s e r = lift_ctx (fixL36_ctx c s e r) t.
 Proof.
   unfold RBTree.fixL36, fixL36_ctx. destruct r as [|sc sl ss se sr]; [reflexivity|].
   destruct (is_black sl && is_black sr); [reflexivity|].
   destruct (is_black sr); [|reflexivity]. destruct sl; reflexivity.
 Qed.
 
-Lemma fixR36_ctx_spec c l s e t : fixR36 c l s e t = lift_ctx (fixR36_ctx c l s e) t.
+Lemma fixR36_ctx_spec c l (s: N) e t : fixR36 c l s e t = lift_ctx (fixR36_ctx c l s e) t.
 Proof.
   unfold RBTree.fixR36, fixR36_ctx. destruct l as [|sc sl ss se sr]; [reflexivity|].
   destruct (is_black sl && is_black sr); [reflexivity|].
@@ -266,13 +157,13 @@ Lemma climb_ctx_cons f k0 :
 Proof. reflexivity. Qed.
 
 (* [del] climbing back through one frame / a whole context *)
-Definition up_del (f: frame) (r: dres ment) : dres ment :=
+Definition up_del (f: frame) (r: dres ent) : dres ent :=
   match r with
   | Done t true fr => match fix1 f t with None => Stuck | Some (t', d') => Done t' d' fr end
   | Done t false fr => Done (plug1 f t) false fr
   | other => other
   end.
-Fixpoint climb_del (k: ctx) (r: dres ment) : dres ment :=
+Fixpoint climb_del (k: ctx) (r: dres ent) : dres ent :=
   match k with [] => r | f :: k0 => climb_del k0 (up_del f r) end.
 
 Lemma climb_del_app k1 : forall k2 r, climb_del (k1 ++ k2) r = climb_del k2 (climb_del k1 r).
@@ -314,12 +205,12 @@ Qed.
 Lemma del_plug1 f t x : NoDup (mslots (plug1 f t)) -> In x (mslots t) -> del (plug1 f t) x = up_del f (del t x).
 Proof.
   intros ND Hx. destruct (nodup_plug1_inv _ _ ND) as (NDt & Hf & Hs).
-  pose proof (del_found ment t x NDt Hx) as Hnf.
+  pose proof (del_found ent t x NDt Hx) as Hnf.
   destruct f as [c i e r|c l i e]; cbn [plug1 fslot fsib up_del fix1] in *.
   - cbn [RBTree.del]. destruct (N.eqb_spec i x) as [->|_]; [contradiction|].
     destruct (del t x) as [| |t' [] fr]; try reflexivity; congruence.
   - cbn [RBTree.del]. destruct (N.eqb_spec i x) as [->|_]; [contradiction|].
-    rewrite (del_notin ment l x) by (apply Hs; exact Hx).
+    rewrite (del_notin ent l x) by (apply Hs; exact Hx).
     destruct (del t x) as [| |t' [] fr]; try reflexivity; congruence.
 Qed.
 
@@ -395,7 +286,7 @@ Proof.
 Qed.
 
 (* the leftmost node T cm E ms me mr is removed like any node with at most one child *)
-Definition min_res (o: option (mtree * bool * N * ment)) : dres ment :=
+Definition min_res (o: option (mtree * bool * N * ent)) : dres ent :=
   match o with None => Stuck | Some (t, d, ms, _) => Done t d ms end.
 
 Lemma del_min_spine t : t <> E ->
@@ -1200,7 +1091,7 @@ Proof.
 Qed.
 
 Theorem arena_delete_refines_frame s t x fuel :
-  Rep s EMPTY (aroot s) t -> NoDup (mslots t) -> ~ In 0 (mslots t) -> rbi ment t ->
+  Rep s EMPTY (aroot s) t -> NoDup (mslots t) -> ~ In 0 (mslots t) -> rbi ent t ->
   In x (mslots t) -> (height t <= fuel)%nat ->
   exists t' d f s', del t x = Done t' d f /\
     arena_delete fuel s x = Ret (s', f) /\ Rep s' EMPTY (aroot s') t' /\
@@ -1209,7 +1100,7 @@ Proof.
   intros HR ND H0 Hrb Hx Hfuel.
   destruct (slot_focus t x Hx) as (k & c & l & e & r & Et).
   assert (Hdel: exists t' d f, del t x = Done t' d f).
-  { pose proof (delete_rb_total ment t x Hrb) as Htot. pose proof (del_found ment t x ND Hx) as Hnf.
+  { pose proof (delete_rb_total ent t x Hrb) as Htot. pose proof (del_found ent t x ND Hx) as Hnf.
     destruct (del t x) as [| |t' d f]; [congruence|contradiction|eauto]. }
   destruct Hdel as (t' & d & f & Hdel). exists t', d.
   assert (HW: WT s (mslots t) t) by (split; [exact HR|reflexivity]).
@@ -1271,7 +1162,7 @@ Qed.
 
 (* the statement asked for, with the fuel bound of the insertion theorem *)
 Theorem arena_delete_refines s t x fuel :
-  Rep s EMPTY (aroot s) t -> NoDup (mslots t) -> ~ In 0 (mslots t) -> rbi ment t ->
+  Rep s EMPTY (aroot s) t -> NoDup (mslots t) -> ~ In 0 (mslots t) -> rbi ent t ->
   In x (mslots t) -> (2 * height t + 4 <= fuel)%nat ->
   exists t' d f s', del t x = Done t' d f /\
     arena_delete fuel s x = Ret (s', f) /\ Rep s' EMPTY (aroot s') t'.
@@ -1283,7 +1174,7 @@ Qed.
 
 (* slots outside the tree, other than the sentinel, are not written *)
 Corollary arena_delete_frame s t x fuel s' f :
-  Rep s EMPTY (aroot s) t -> NoDup (mslots t) -> ~ In 0 (mslots t) -> rbi ment t ->
+  Rep s EMPTY (aroot s) t -> NoDup (mslots t) -> ~ In 0 (mslots t) -> rbi ent t ->
   In x (mslots t) -> (height t <= fuel)%nat -> arena_delete fuel s x = Ret (s', f) ->
   forall j, ~ In j (mslots t) -> j <> 0 -> nodes s' j = nodes s j.
 Proof.
@@ -1292,45 +1183,4 @@ Proof.
   rewrite Hrun in H2. inversion H2; subst. apply Hfr. intros [K|K]; [congruence|contradiction].
 Qed.
 
-
-(** ** the map / set step: MapTree::delete_by_index on the arena *)
-Theorem arena_map_delete_at (a: astate) (s: mstate) (x: N) (e: ment) :
-  MInv s -> In (x, e) (mel (root s)) -> Rep a EMPTY (aroot a) (root s) ->
-  exists s' a' f, m_delete_at s x = Ret s' /\
-    arena_delete (height (root s)) a x = Ret (a', f) /\
-    pl s' = pool_put (pl s) f /\ Rep a' EMPTY (aroot a') (root s') /\ MInv s' /\
-    (forall j, ~ In j (mslots (root s)) -> j <> 0 -> nodes a' j = nodes a j).
-Proof.
-  intros HI Hin HR. pose proof HI as (ND & Hrb & Hbst & Hwf).
-  assert (Hx: In x (mslots (root s))) by (eapply in_elements_slots; eauto).
-  assert (H0: ~ In 0 (mslots (root s))).
-  { intros K. destruct Hwf as (_ & Hrange & _). assert (K': In 0 (mslots (root s) ++ unused (pl s))) by (apply in_or_app; auto).
-    apply Hrange in K'. lia. }
-  destruct (arena_delete_refines_frame a (root s) x _ HR ND H0 Hrb Hx (le_n _)) as (t' & d & f & a' & Hd & Ha & HR' & Hfr).
-  destruct (m_delete_at_spec s x e HI Hin) as (s' & A & B & Hs' & HI' & _).
-  unfold m_delete_at in Hs'. rewrite Hd in Hs'. inversion Hs'; subst s'. cbn [root pl] in *.
-  exists {| root := t'; pl := pool_put (pl s) f |}, a', f. cbn [root pl].
-  split; [unfold m_delete_at; rewrite Hd; reflexivity|]. split; [exact Ha|]. split; [reflexivity|].
-  split; [exact HR'|]. split; [exact HI'|].
-  intros j Hj Hj0. apply Hfr. intros [K|K]; [congruence|contradiction].
-Qed.
-
-
-(** ** non-vacuity: the hypotheses of the theorem hold of an arena built by fifteen insertions *)
-Lemma tree_inserts_rb ks : forall t next, rbi ment t -> rbi ment (tree_inserts t next ks).
-Proof.
-  induction ks as [|k ks IH]; intros t next H; [exact H|]. cbn [tree_inserts]. apply IH. apply insert_tree_rb. exact H.
-Qed.
-
-Example arena_delete_applies : forall s, arena_inserts empty_arena 1 ks_a = Ret s ->
-  exists t' d f s', del (tree_inserts E 1 ks_a) 7 = Done t' d f /\ arena_delete 20 s 7 = Ret (s', f) /\
-    Rep s' EMPTY (aroot s') t'.
-Proof.
-  intros s Hs. apply arena_delete_refines.
-  - apply (read_tree_sound 64). vm_compute in Hs. inversion Hs; subst s. vm_compute. reflexivity.
-  - vm_compute. repeat constructor; cbn [In]; intuition discriminate.
-  - vm_compute. intuition discriminate.
-  - apply tree_inserts_rb. constructor.
-  - vm_compute. tauto.
-  - vm_compute. lia.
-Qed.
+End ArenaDeleteProofs.
